@@ -41,7 +41,8 @@ def import_data(
 
         if data_type == "tensor":
             shape = import_shape(fp)
-            data = import_array(fp, np.prod(shape))
+            # the tensor without modes (ttb.tensor()) holds no entry (np.prod(()) is 1)
+            data = import_array(fp, np.prod(shape) if shape else 0)
             return ttb.tensor(data, shape, copy=False)
 
         if data_type == "sptensor":
@@ -62,6 +63,8 @@ def import_data(
             weights = import_array(fp, r)
             if r == 0:
                 fp.readline()  # np.fromfile(count=0) leaves the empty weights line
+                if len(shape) == 0:
+                    return ttb.ktensor()  # the Kruskal tensor without modes
             factor_matrices = []
             for _ in range(len(shape)):
                 fp.readline().strip()  # Skip factor type
@@ -84,7 +87,8 @@ def import_type(fp: TextIO) -> str:
 def import_shape(fp: TextIO) -> Tuple[int, ...]:
     """Extract the shape of something from a file."""
     n = int(fp.readline().strip().split(" ")[0])
-    shape = [int(d) for d in fp.readline().strip().split(" ")]
+    sizes = fp.readline().strip()  # empty for an object without modes
+    shape = [int(d) for d in sizes.split(" ")] if sizes else []
     if len(shape) != n:
         assert False, "Imported dimensions are not of expected size"
     return tuple(shape)
@@ -115,4 +119,4 @@ def import_sparse_array(
 
 def import_array(fp: TextIO, n: Union[int, np.integer]) -> np.ndarray:
     """Extract numpy array from file."""
-    return np.fromfile(fp, count=n, sep=" ")
+    return np.fromfile(fp, count=int(n), sep=" ")  # np.prod(()) is the float 1.0
